@@ -637,6 +637,41 @@ func recoverLargeXCase(t *engine.T) {
 	}
 }
 
+// recoverDegenerateCase: signatures anyone can construct for a given digest such that one of the two candidate points
+// R = (r-e, +-y) equals [s]G, i.e. the recovered key (r+s)^-1 (R - [s]G) is the point at infinity for that candidate
+// (the other candidate gives an ordinary key); and such that r+s = 0 mod n. No panic, no nil key, every returned key
+// satisfies the equation.
+func recoverDegenerateCase(t *engine.T) {
+	c := ecref.SM2()
+	n := c.N
+	g := GTable()
+	one := big.NewInt(1)
+	es := [][]byte{ecref.Bytes32(one), ecref.Bytes32(HashChain("verif/c06/recover-e", 1)), ecref.Bytes32(new(big.Int).Sub(n, one)), make([]byte, 32)}
+	for si, s := range []*big.Int{one, big.NewInt(2), big.NewInt(7), new(big.Int).Sub(n, one), new(big.Int).Sub(n, big.NewInt(2)), HashChain("verif/c06/recover-s", 1), new(big.Int).Lsh(one, 255)} {
+		sg := g.Mul(s)
+		if sg.Inf || sg.X.Cmp(n) >= 0 {
+			continue
+		}
+		for ei, eb := range es {
+			e := new(big.Int).SetBytes(eb)
+			r := new(big.Int).Add(sg.X, e)
+			r.Mod(r, n)
+			if r.Sign() == 0 {
+				continue
+			}
+			if new(big.Int).Mod(new(big.Int).Add(r, s), n).Sign() == 0 {
+				continue
+			}
+			recoverOne(t, "degenerate/candidate-equals-[s]G", fmt.Sprintf("s#%d e#%d: r = x([s]G)+e, so one candidate R is [s]G and its key is the point at infinity", si, ei), eb, sigOf(r, s), nil, false)
+		}
+	}
+	// r + s = 0 mod n: (r+s) has no inverse; verification rejects such pairs, recovery must return no key
+	for _, r := range []*big.Int{one, big.NewInt(5), HashChain("verif/c06/recover-r", 1)} {
+		s := new(big.Int).Sub(n, r)
+		recoverOne(t, "degenerate/r+s=0", fmt.Sprintf("r=%x, s=n-r", r), ecref.Bytes32(big.NewInt(99)), sigOf(r, s), nil, false)
+	}
+}
+
 // ---------------------------------------------------------------------------------------------
 // W9: further degenerate branches of verification reachable with a chosen digest: the final addition [s]G + [t]P is a
 // DOUBLING ([s]G = [t]P: s = t*d) — a valid signature that must be accepted; and the public key -G (d+1 = 0 mod n, so
@@ -940,6 +975,7 @@ func otherCurveCase(t *engine.T, cv elliptic.Curve) {
 
 func runWiden2(c *engine.Ctx) {
 	for _, dim := range []string{"uid", "msg"} {
+	c.Case("widen/recover-public-keys/degenerate", recoverDegenerateCase)
 		lens := sweepLens(dim, c.Quick())
 		for from := 0; from < len(lens); from += 24 {
 			to := from + 24
